@@ -36,7 +36,7 @@ def evaluate(prop, i, others=False):
         r = subprocess.run(f"git apply {patch} || git apply --3way {patch}", cwd=wt, shell=True, capture_output=True, text=True)
         rec["applies"] = r.returncode == 0
         if rec["applies"]:
-            base = prop.rstrip("b")        # (second-round directories are named <P>b)
+            base = prop.rstrip("bc")        # (second-round directories are named <P>b)
             targets = [base] if base in CLAIMED else []
             for p in targets:
                 rec["checks"].append(run_check(p, wt))
